@@ -50,6 +50,15 @@ func statusName(i int) string { return [...]string{"unbonded", "unbonding", "bon
 func monitor(w *world, op Op, r result, b, a *snap) (out []finding) {
 	add := func(pred, sig, detail string) { out = append(out, finding{pred, sig, detail}) }
 	amt := bigOf(op.Amt)
+	msgKind := op.Kind
+	op = plainKind(op)
+
+	// burning moves the stake of the burned derivative's validator back: a burn message is never
+	// served from the module's delegation to another validator than the coin's
+	if r.cls == ClassOk && (msgKind == "burnmsg" || msgKind == "mintmsg") && op.Kind == msgKind {
+		add("conversion-moves-the-stake", "conversion-accepted-with-foreign-denom:"+msgKind,
+			fmt.Sprintf("%s by %d naming validator %d accepted a coin of denom index %d (-1 = bond denom), amount %s", msgKind, op.A, op.V, op.D, amt))
+	}
 
 	// a refused operation changes nothing
 	if r.cls != ClassOk {
